@@ -158,8 +158,9 @@ class Check(object):
             'wall_s': round(time.time() - self.t0, 2),
             'violations': len(self.violations),
         }
-        with open(os.path.join(EVID, self.pid + '.json'), 'w') as f:
-            json.dump(ev, f, indent=1, default=str)
+        if not getattr(self, 'replay_mode', False):     # a --replay run never overwrites the evidence of the check
+            with open(os.path.join(EVID, self.pid + '.json'), 'w') as f:
+                json.dump(ev, f, indent=1, default=str)
         for line in lines:
             print(line)
         print('%s tier=%s seed=%d states=%d transitions=%d traces=%d cases=%d distinct=%d drift=%d known=%d '
